@@ -121,7 +121,8 @@ Definition expand_page (p : page_raw) : page_obs :=
 Inductive scan_obs :=
 | SDone (pages : list page_raw)              (* ended on a page without token *)
 | SFailed (status : N) (pages : list page_raw)   (* a request was not answered 200 (0: no response) *)
-| SRunaway (pages : list page_raw).          (* still a token after |coll| + 2 requests *)
+| SRunaway (pages : list page_raw).          (* the client gave up: still a token after |coll| + 2
+                                                requests, or more items received than the collection holds *)
 
 Inductive c15case :=
 | CScan (o : order) (coll : keys) (lim : option N) (obs : scan_obs)
